@@ -507,6 +507,46 @@ func init() {
 					&c16Replay{Property: "C16", Clause: "same-content-same-hash", A: c16Base, HashA: baseHash, HashB: hs[0] + " / " + hs[1] + " / " + sh})
 			}
 		}
+		// (1c) the hash is a function of the content only: reload callbacks that rewrite the parsed config in
+		// place (as cmd/kvass's configInject does with process-local flags), an extra config (stop-scrape
+		// reason) held by the process, and earlier reloads must not influence it
+		if c.Part == 0 {
+			idx++
+			hashWith := func(prep func(m *prom.ConfigManager)) string {
+				m := prom.NewConfigManager()
+				prep(m)
+				if err := m.ReloadFromRaw([]byte(c16Base)); err != nil {
+					chk.Fatalf("%v", err)
+				}
+				return m.ConfigInfo().ConfigHash
+			}
+			cases := map[string]string{
+				"mutating-callback": hashWith(func(m *prom.ConfigManager) {
+					m.AddReloadCallbacks(func(ci *prom.ConfigInfo) error {
+						for _, j := range ci.Config.ScrapeConfigs {
+							j.HTTPClientConfig.BearerTokenFile = "/process/local/token"
+							j.HTTPClientConfig.TLSConfig.CAFile = "/process/local/ca.crt"
+						}
+						return nil
+					})
+				}),
+				"extra-config-held": hashWith(func(m *prom.ConfigManager) {
+					_ = m.UpdateExtraConfig(prom.ExtraConfig{StopScrapeReason: "quota exceeded"})
+				}),
+				"reloaded-other-config-before": hashWith(func(m *prom.ConfigManager) {
+					_ = m.ReloadFromRaw([]byte("scrape_configs:\n- job_name: other\n  static_configs:\n  - targets: [\"x:1\"]\n"))
+				}),
+				"reloaded-twice": hashWith(func(m *prom.ConfigManager) { _ = m.ReloadFromRaw([]byte(c16Base)) }),
+			}
+			for _, name := range chk.SortedKeys(cases) {
+				r.States++
+				r.Transitions++
+				if cases[name] != baseHash {
+					r.Violate("C16:process-state-dependent:"+name, "same-content-same-hash", fmt.Sprintf("%s: hash %s, a fresh process computes %s for the same content", name, cases[name], baseHash), idx,
+						&c16Replay{Property: "C16", Clause: "same-content-same-hash", Edit: name, A: c16Base, HashA: baseHash, HashB: cases[name]})
+				}
+			}
+		}
 		// (2) formatting-only and external-label variants of the base and of some edited documents
 		docs := map[string]string{"base": c16Base}
 		for i, e := range edits {
